@@ -983,7 +983,15 @@ def dict_method(ip, o, name, args, kw, ctx):
             o.d[k] = args[1] if len(args) > 1 else None
         return o.d[k]
     if name == "pop":
-        k = ip.concrete_key(args[0], ctx)
+        k = args[0]
+        if isinstance(k, Seq) and isinstance(k.to_python(), Seq):
+            for kk in list(o.d.keys()):
+                if ctx.branch(ip.truth(ip.equals(kk, k, ctx), ctx)):
+                    return o.d.pop(kk)
+            if len(args) > 1:
+                return args[1]
+            _raise("KeyError", "key")
+        k = ip.concrete_key(k, ctx)
         if k in o.d:
             return o.d.pop(k)
         if len(args) > 1:
@@ -1072,8 +1080,14 @@ def env_method(ip, o, name, args, kw, ctx):
     if not isinstance(o, I.EnvObj):
         return NotImplemented
     if o.kind == "logger":
-        if name in ("debug", "info", "error", "critical", "warning", "exception"):
+        if name in ("debug", "info", "error", "critical", "warning", "exception", "log"):
             return None
+        if name == "isEnabledFor":
+            # the logging configuration belongs to the environment: either answer is possible
+            ctx.used_models.add("logging: isEnabledFor() may answer either way (the log level is configured by the application)")
+            return bool(ctx.fork(2))
+        if name == "getEffectiveLevel":
+            return [10, 20, 30, 40, 50][ctx.fork(5)]
         return NotImplemented
     if o.kind == "match":
         if name == "group":
@@ -1124,6 +1138,8 @@ def install(ip):
     e["warnings.warn"] = B("warn", b_warn)
     e["textwrap.wrap"] = B("wrap", b_wrap)
     e["logging.getLogger"] = B("getLogger", b_getLogger)
+    for lname, lv in (("DEBUG", 10), ("INFO", 20), ("WARNING", 30), ("ERROR", 40), ("CRITICAL", 50)):
+        e["logging." + lname] = lv
     e["functools.partial"] = B("partial", b_partial)
     e["typing.final"] = B("final", lambda ip, a, k, c: a[0])
     for tname in ("Any", "Callable", "Dict", "List", "Optional", "Tuple", "Type", "Set", "Union"):
